@@ -282,6 +282,9 @@ func c09(w *World) {
 	T := time.Duration(n+tol) * time.Second
 	slack := T / 10
 	pattern := []string{"silence", "answer-in-second-period", "ends-just-before-first", "ends-just-after-first", "steady", "steady"}[w.W.Draw(6)]
+	if pattern == "silence" && w.W.Chance(1, 4) {
+		pattern = "silence-probe-unsendable"
+	}
 	w.Cfg("pattern", pattern)
 	w.State(pattern)
 	sc.Settle()
@@ -302,7 +305,7 @@ func c09(w *World) {
 		prevShort, shortThenFull := false, false
 		steadyOnly := -1 // -1: mixed types; otherwise one message type only ("any type" means every type on its own)
 		if w.W.Chance(1, 2) {
-			steadyOnly = w.W.Draw(5)
+			steadyOnly = w.W.Draw(6)
 			periods = 20 + w.W.Draw(40)
 		}
 		for i := 0; i < periods && !sc.P.EOF; i++ {
@@ -321,7 +324,7 @@ func c09(w *World) {
 			}
 			prevShort, shortThenFull = shortThenFull, false
 			simrt.Sleep(gap)
-			kind := w.W.Draw(5)
+			kind := w.W.Draw(6)
 			if steadyOnly >= 0 {
 				kind = steadyOnly
 			}
@@ -335,6 +338,18 @@ func c09(w *World) {
 			case 3:
 				// SequenceReset-GapFill announcing exactly the next number: sequence numbers stay in step
 				sc.P.Send(sc.Msg("4", F(123, "Y"), FI(36, sc.LastSeq()+1)))
+			case 4:
+				// a peer whose messages have no usable sequence number is talking all the same: whatever else
+				// the session makes of such a message, it is inbound traffic and the peer is alive
+				fields := AdminMsg("D", sc.LastSeq()+1, sc.PeerID, sc.LibID, F(11, "g"+itoa(i)))
+				if w.W.Chance(1, 2) {
+					fields = dropField(fields, TagMsgSeqNum)
+				} else {
+					txt, _ := NonNumeric(w.W, sc.LastSeq()+1)
+					setField(fields, TagMsgSeqNum, txt)
+				}
+				sc.P.Send(Build(fields, WireOpts{}))
+				w.Probe("steady_unusable_seqnum")
 			default:
 				sc.P.Send(sc.Msg("ZZ"))
 			}
@@ -347,6 +362,34 @@ func c09(w *World) {
 			w.Violate("live-peer-disconnected", fmt.Sprintf("N=%d", n), fmt.Sprintf("a peer that sent something at least every %ds was disconnected", n))
 		}
 		w.Probe("steady_periods")
+
+	case "silence-probe-unsendable":
+		// Fault at a particular point: the store cannot save the TestRequest when the first deadline
+		// fires, so no probe reaches the wire. The peer is silent all the same, and after a second period
+		// of silence the session has to give the connection up (it must not wait for a probe it could
+		// never send, nor start the two periods afresh).
+		sc.Cfg.Store.FailType = "1"
+		w.Fault("store_refuses_testrequest")
+		simrt.Sleep(lastIn.Add(2*T - time.Millisecond).Sub(time.Now()))
+		sc.Settle()
+		if sc.P.EOF {
+			w.Violate("disconnected-too-early", fmt.Sprintf("N=%d/probe-unsendable", n), fmt.Sprintf("connection closed %v after the last inbound message, before two periods T=%v had passed", sc.P.EOFAt.Sub(lastIn), T))
+			break
+		}
+		simrt.Sleep(lastIn.Add(2*T + 2*slack + time.Millisecond).Sub(time.Now()))
+		sc.Settle()
+		if sc.Cfg.Store.FailType != "" {
+			w.Inconclusive = "fault-not-reached" // no TestRequest was ever built: the plain silence pattern reports that
+			break
+		}
+		if _, gone := discAt(); !gone {
+			w.Violate("silent-peer-not-disconnected", fmt.Sprintf("N=%d/probe-unsendable", n), fmt.Sprintf("connection still open %v after the last inbound message although the peer was silent for two periods (T=%v); the TestRequest could not be saved", time.Since(lastIn), T))
+			break
+		}
+		if appDisc() == 0 {
+			w.Violate("no-disconnect-notification", sc.Role, "the connection was closed for silence but neither EventDisconnect nor OnStopped was raised")
+		}
+		w.Probe("disconnected_for_silence_probe_unsendable")
 
 	default:
 		// ---- first period: silence until the TestRequest ----
